@@ -87,7 +87,7 @@ def _workdir():
 
 
 def path_class(path):
-    if path in ("json", "pickle"):
+    if path in ("json", "pickle", "writer"):
         return path
     return "to_string" if path.startswith("to_") else "write"
 
@@ -101,6 +101,11 @@ def write_and_load(table, path, d):
         p = d / f"t{n}.{fmt}"
         s = table.to_csv() if fmt == "csv" else table.to_tsv()
         p.write_text(s + "\n")  # Table.write adds the final newline to string formats
+    elif path == "writer":
+        from cogent3.format.table import separator_formatter
+
+        p = d / f"t{n}.tsv"
+        table.write(p, writer=separator_formatter(sep="\t"))
     else:
         p = d / f"t{n}.{path}"
         table.write(p)
@@ -127,7 +132,8 @@ def cell_ok(exp, v, delimited, missing):
         want = int if tag == "i" else float
         if isinstance(v, bool) or not isinstance(v, want):
             return False, "kind"  # numeric column not restored as the number it was
-        return v == want(text(chars)), "text"
+        w = want(text(chars))
+        return (v == w or (v != v and w != w)), "text"  # nan is restored as nan
     if tag == "n":
         return (v is None or str(v) in missing), "text"
     return str(v) == text(chars), "text"
@@ -211,7 +217,7 @@ def check_text(run, stats, replay, jobs):
     by_path = {}
     for r in recs:
         by_path[r["args"][0]] = by_path.get(r["args"][0], 0) + 1
-    if len(by_path) != 8:
+    if len(by_path) != 9:
         raise RuntimeError(f"vacuous: io group did not cover all output paths: {sorted(by_path)}")
     stats["text-io"] = {"tlc_states": res.distinct, "tlc_transitions": res.generated, "tlc_wall_s": round(res.wall, 1),
                         "cases": n, "disagreements": bad, "by_path": by_path,
@@ -221,7 +227,9 @@ def check_text(run, stats, replay, jobs):
         "delimited text has no notation for a missing value: a None cell may come back as '' or 'None' (Demanded.missing in TableText.tla)",
         "str cells that read as numbers/bools may come back typed (documented inference); their text must be unchanged",
         "str cells that are a number or True/False/None padded with blanks (' 10', 'True ') are outside the model: the documented inference reads them as the value, like int(' 10')",
-        "to_csv()/to_tsv() text is stored with a final newline, as Table.write does for string formats; model floats are exact at digits=4",
+        "to_csv()/to_tsv() text is stored with a final newline, as Table.write does for string formats; floats there are exact at digits=4 (exponent-notation values are only sent through Table.write / json / pickle)",
+        "numeric cells include nan, inf, -inf (nan is restored as nan), negative numbers, -0.0, an 18 digit int and one exponent-notation float, at every row position; ints beyond 64 bits, complex columns and columns mixing int and float cells are outside the model",
+        "path 'writer' = Table.write(path.tsv, writer=separator_formatter(sep='\\t')): a caller supplied line writer does no quoting, so it is only given tables without special cells",
         "csv.writer / csv.reader / separator_format models are bound to the real functions on every design table; a mismatch is MODEL-DRIFT, not a violation",
     ]
     return total
